@@ -524,7 +524,33 @@ func c13Faults() []c13Case {
 	pipe := func(m map[string]any, n string) map[string]any {
 		return m["service"].(map[string]any)["pipelines"].(map[string]any)[n].(map[string]any)
 	}
-	return []c13Case{
+	// component ids are decoded leniently (whitespace around type and name is not significant): however the id of a
+	// component is spelled, the body written under it is that component's configuration - an unknown key in it is rejected,
+	// an invalid value in it is reported
+	var spelled []c13Case
+	for _, sec := range []struct{ section, id string }{{"receivers", "nop"}, {"processors", "batch"}, {"exporters", "nop"}, {"connectors", "forward"}, {"extensions", "zpages"}} {
+		for _, sp := range []string{"%s", " %s", "%s ", "\t%s", "%s / a", " %s/a "} {
+			key := fmt.Sprintf(sp, sec.id)
+			sec, sp := sec, sp
+			spelled = append(spelled, c13Case{Kind: "fault", Comp: fmt.Sprintf("unknown key under %s id spelled %q", sec.section, key), Expect: "zz_unknown", Config: mk(func(m map[string]any) {
+				if !strings.Contains(sp, "a") {
+					delete(m[sec.section].(map[string]any), sec.id)
+				}
+				m[sec.section].(map[string]any)[key] = map[string]any{"zz_unknown": 1}
+			})})
+		}
+	}
+	for _, sp := range []string{"%s", " %s", "%s ", "%s / a"} {
+		key := fmt.Sprintf(sp, "batch")
+		sp := sp
+		spelled = append(spelled, c13Case{Kind: "invalid", Comp: fmt.Sprintf("batch max < size under id spelled %q", key), Expect: "send_batch_max_size", Config: mk(func(m map[string]any) {
+			if !strings.Contains(sp, "a") {
+				delete(m["processors"].(map[string]any), "batch")
+			}
+			m["processors"].(map[string]any)[key] = map[string]any{"send_batch_size": 10, "send_batch_max_size": 5}
+		})})
+	}
+	return append(spelled, []c13Case{
 		{Kind: "fault", Comp: "undefined receiver", Expect: "nosuchrecv", Config: mk(func(m map[string]any) { pipe(m, "traces")["receivers"] = []any{"nop", "nosuchrecv"} })},
 		{Kind: "fault", Comp: "undefined processor", Expect: "nosuchproc", Config: mk(func(m map[string]any) { pipe(m, "traces")["processors"] = []any{"batch", "nosuchproc"} })},
 		{Kind: "fault", Comp: "undefined exporter", Expect: "nosuchexp", Config: mk(func(m map[string]any) { pipe(m, "logs")["exporters"] = []any{"nosuchexp"} })},
@@ -578,7 +604,7 @@ func c13Faults() []c13Case {
 		{Kind: "invalid", Comp: "telemetry metrics level", Expect: "level", Config: mk(func(m map[string]any) {
 			m["service"].(map[string]any)["telemetry"].(map[string]any)["metrics"] = map[string]any{"level": "bogus"}
 		})},
-	}
+	}...)
 }
 
 // c13RefGrid: reference / shape faults generated at EVERY position (with the fault-free lists as positive controls):
